@@ -357,6 +357,25 @@ class C19(Check):
             for c in cyc:
                 for p in prof:
                     yield {'kind': kind, 'muts': c + p}
+        # single-word retargeting of every 4-byte word of the structured header areas (save descriptors, NCCH / NCSD / ExeFS
+        # headers, the TMD) to the values that turn a size, count or exponent field into something enormous
+        for kind in ('diff', 'disa'):
+            base = bs[kind][0]
+            spans = []
+            j = base.find(b'DIFI')
+            while j >= 0:
+                spans.append((j, min(len(base), j + 0x130)))
+                j = base.find(b'DIFI', j + 1)
+            for lo, hi in spans:
+                for pos in range(lo, hi - 3, 4):
+                    for val in (0xFFFFFFFF, 0x7FFFFFFF, 0x40):
+                        yield {'kind': kind, 'muts': [['set', pos, 4, val]]}
+        for kind, lo, hi in (('ncch', 0x100, 0x200), ('cci', 0x100, 0x200), ('nand', 0x100, 0x200), ('exefs', 0, 0x200),
+                             ('tmd', 0x140, 0x140 + 0xC4 + 0x40 * 0x24 + 0x60)):
+            base = bs[kind][0]
+            for pos in range(lo, min(hi, len(base)) - 3, 4):
+                for val in (0xFFFFFFFF, 0x7FFFFFFF):
+                    yield {'kind': kind, 'muts': [['set', pos, 4, val]]}
         if tier != 'thorough':
             return
         for kind in ('romfs', 'exefs', 'seeddb', 'lzss', 'tmd', 'diff'):
